@@ -1,5 +1,5 @@
 CONSTANTS
-  Forms = {"use_unknown", "use_facade", "bare", "glob_all", "qualified_unknown", "use_first", "distinct_needs", "use_facade_plus"}
+  Forms = {"use_unknown", "use_facade", "bare", "glob_all", "qualified_unknown", "use_first", "use_last", "distinct_needs", "use_facade_plus"}
   NProviders = {2, 3, 5}
   Renames = {"none", "one", "all"}
   Langs = {"typescript", "kotlin", "swift", "scala", "go", "python"}
